@@ -156,6 +156,23 @@ pub fn run(args: &Args) {
                                           "rt_ok": o.rt_ok && o.concat_ok, "wrongway_ok": o.wrongway_ok, "header_ok": o.header_ok})),
                 }
             }
+            // decompress() must not carry anything over from an earlier call: a multi-block stream cut inside its second block
+            // (fails after output was produced), then a small valid record on the same thread
+            {
+                let big = rng.bytes(250_000);
+                let z = bz(&big);
+                let mut cut = prefix(z.len() * 3 / 4, false).to_vec(); cut.extend_from_slice(&z[..z.len() * 3 / 4]);
+                let first = guarded(|| Record::new(cut.clone()).decompress().map(|r| r.data().len()));
+                let small = rng.bytes(5_000);
+                let zs = bz(&small);
+                let mut rec = prefix(zs.len(), false).to_vec(); rec.extend_from_slice(&zs);
+                res.case(fnv(&rec) ^ 0xC0FFEE, true);
+                match guarded(|| Record::new(rec.clone()).decompress().map(|r| r.data().to_vec())) {
+                    Ok(Ok(d)) => if d != small { res.mismatch("violation", "C05/decompress/depends_on_earlier_call", format!("after a failed decompress ({:?}) a valid record decompressed to {} bytes instead of {}", first.map(|r| r.is_ok()), d.len(), small.len()), json!({"sizes": [cut.len(), rec.len()]})); },
+                    Ok(Err(e)) => res.mismatch("violation", "C05/decompress/depends_on_earlier_call", format!("a valid record failed to decompress after a failed one: {e:?}"), json!({"sizes": [cut.len(), rec.len()]})),
+                    Err(p) => res.mismatch("violation", "C05/panic", p, json!({"after_failed_decompress": true})),
+                }
+            }
             res.sample(json!({"files": files, "records_per_file": "0, 1, 60, seeded 2..30", "payload_sizes": "0 B .. 300 KiB (thorough)"}));
             tr.finish();
             res.finish();
